@@ -114,6 +114,18 @@ func allFormats() []Fmt4 {
 		{"|", "| ", "|", "| "}, {"", " ", "", "  "}, {"ab", "abab", "ba", "ab"}, {"+", "+ ", "+-", "+ +"}, {"x\ny", "\n", "\t", " \n "}}
 }
 
+// lineFormats: the branch formats that keep one output line per node (no newline inside a branch string);
+// suites that cut outputs into per-root blocks by counting lines use these.
+func lineFormats() []Fmt4 {
+	var out []Fmt4
+	for _, f := range allFormats() {
+		if !strings.Contains(f[0]+f[1]+f[2]+f[3], "\n") {
+			out = append(out, f)
+		}
+	}
+	return out
+}
+
 // forestsUpTo enumerates every ordered forest with 1..n nodes over the alphabet.
 func forestsUpTo(n int, alphabet []string) [][]*Tree {
 	var out [][]*Tree
